@@ -255,19 +255,11 @@ func checkSingleCriterionComparators(w *World, r *Report) {
 			if !ok {
 				return
 			}
-			f := calleeFunc(c)
-			if f == nil || f.Pkg() == nil || f.Pkg().Path() != "sort" || (f.Name() != "Slice" && f.Name() != "SliceStable") || len(c.Call.Args) != 2 {
+			site, ok := w.sortSiteOf(c)
+			if !ok || site.elem == nil {
 				return
 			}
-			sl := c.Call.Args[0]
-			if mi, ok := sl.(*ssa.MakeInterface); ok {
-				sl = mi.X
-			}
-			st, ok := sl.Type().Underlying().(*types.Slice)
-			if !ok {
-				return
-			}
-			switch et := st.Elem().Underlying().(type) {
+			switch et := site.elem.Underlying().(type) {
 			case *types.Basic:
 			case *types.Interface:
 				if et.NumMethods() != 0 {
@@ -276,41 +268,165 @@ func checkSingleCriterionComparators(w *World, r *Report) {
 			default:
 				return // struct entries (cache bookkeeping), reflect.Value keys (R03.3)
 			}
-			var cmp *ssa.Function
-			switch x := c.Call.Args[1].(type) {
-			case *ssa.MakeClosure:
-				cmp, _ = x.Fn.(*ssa.Function)
-			case *ssa.Function:
-				cmp = x
-			}
-			if cmp == nil || len(cmp.Params) != 2 {
-				return
-			}
 			n++
 			cs := &cmpShaper{env: map[ssa.Value]string{}}
-			instrsOf(cmp, func(x ssa.Instruction) {
-				u, ok := x.(*ssa.UnOp)
-				if !ok || u.Op != token.MUL {
-					return
-				}
-				ia, ok := u.X.(*ssa.IndexAddr)
-				if !ok {
-					return
-				}
-				switch ia.Index {
-				case ssa.Value(cmp.Params[0]):
-					cs.env[u] = "$A"
-				case ssa.Value(cmp.Params[1]):
-					cs.env[u] = "$B"
-				}
-			})
+			for _, v := range site.a {
+				cs.env[v] = "$A"
+			}
+			for _, v := range site.b {
+				cs.env[v] = "$B"
+			}
 			construct := "comparator applies one criterion to every pair"
-			if why := w.checkSingleCriterion(cmp, cs, 0); why != "" {
+			if why := w.checkSingleCriterion(site.cmp, cs, 0); why != "" {
 				r.bad("R03.4", ssaName(fn), construct, w.posOf(c.Pos()), "the comparator chooses its criterion per pair — "+why+": such a relation is not a strict weak order (numeric for some pairs, by spelling for others is cyclic), sort then leaves the elements in an order that depends on how they arrived — for keys collected from a map, Go's random iteration order")
 			} else {
 				r.ok("R03.4", ssaName(fn), construct, w.posOf(c.Pos()), "every condition and result relates the same projection of both elements", true)
 			}
 		})
 	}
-	r.Counts["sort.Slice comparators over plain values"] = n
+	r.Counts["sort comparators over plain values"] = n
+}
+
+// sortSite: one call that orders a slice with a user-supplied comparison — sort.Slice /
+// SliceStable with a less function, sort.Sort / Stable over a sort.Interface implementation of
+// the package (the Less method), slices.SortFunc / SortStableFunc — with the comparison resolved
+// through "return helper(x[i], x[j])" delegation to the function that really compares.
+type sortSite struct {
+	call  *ssa.Call
+	elem  types.Type    // element type of the sorted slice (nil if only known to reflection)
+	cmp   *ssa.Function // the function that compares
+	a, b  []ssa.Value   // the values in cmp that denote the two elements
+	outer *ssa.Function // the less function / Less method as passed (== cmp without delegation)
+}
+
+func (w *World) sortSiteOf(c *ssa.Call) (*sortSite, bool) {
+	f := calleeFunc(c)
+	if f == nil || f.Pkg() == nil {
+		return nil, false
+	}
+	prog, _ := w.ssa()
+	s := &sortSite{call: c}
+	funcOf := func(v ssa.Value) *ssa.Function {
+		switch x := v.(type) {
+		case *ssa.MakeClosure:
+			fn, _ := x.Fn.(*ssa.Function)
+			return fn
+		case *ssa.Function:
+			return x
+		}
+		return nil
+	}
+	elemOfSlice := func(v ssa.Value) types.Type {
+		if mi, ok := v.(*ssa.MakeInterface); ok {
+			v = mi.X
+		}
+		if st, ok := v.Type().Underlying().(*types.Slice); ok {
+			return st.Elem()
+		}
+		return nil
+	}
+	indexStyle := true // comparison receives positions i, j
+	switch {
+	case f.Pkg().Path() == "sort" && (f.Name() == "Slice" || f.Name() == "SliceStable") && len(c.Call.Args) == 2:
+		s.elem = elemOfSlice(c.Call.Args[0])
+		s.outer = funcOf(c.Call.Args[1])
+	case f.Pkg().Path() == "sort" && (f.Name() == "Sort" || f.Name() == "Stable") && len(c.Call.Args) == 1:
+		mi, ok := c.Call.Args[0].(*ssa.MakeInterface)
+		if !ok {
+			return nil, false
+		}
+		t := mi.X.Type()
+		n, ok := deref(t).(*types.Named)
+		if !ok || n.Obj().Pkg() == nil || n.Obj().Pkg().Path() != twigPath {
+			return nil, false
+		}
+		sel := prog.MethodSets.MethodSet(t).Lookup(n.Obj().Pkg(), "Less")
+		if sel == nil {
+			return nil, false
+		}
+		s.outer = prog.MethodValue(sel)
+		switch u := n.Underlying().(type) {
+		case *types.Slice:
+			s.elem = u.Elem()
+		}
+	case f.Pkg().Path() == "slices" && (f.Name() == "SortFunc" || f.Name() == "SortStableFunc") && len(c.Call.Args) == 2:
+		s.elem = elemOfSlice(c.Call.Args[0])
+		s.outer = funcOf(c.Call.Args[1])
+		indexStyle = false
+	default:
+		return nil, false
+	}
+	if s.outer == nil || len(s.outer.Blocks) == 0 {
+		return nil, false
+	}
+	s.cmp = s.outer
+	np := len(s.cmp.Params)
+	if np < 2 {
+		return nil, false
+	}
+	pi, pj := s.cmp.Params[np-2], s.cmp.Params[np-1]
+	if indexStyle {
+		instrsOf(s.cmp, func(x ssa.Instruction) {
+			var idx ssa.Value
+			var val ssa.Value
+			switch y := x.(type) {
+			case *ssa.UnOp:
+				if ia, ok := y.X.(*ssa.IndexAddr); ok && y.Op == token.MUL {
+					idx, val = ia.Index, y
+				}
+			case *ssa.Index:
+				idx, val = y.Index, y
+			case *ssa.Call:
+				// v.Index(i) on a reflect.Value
+				if g := y.Call.StaticCallee(); g != nil && g.String() == "(reflect.Value).Index" {
+					idx, val = y.Call.Args[1], y
+				}
+			}
+			switch idx {
+			case ssa.Value(pi):
+				s.a = append(s.a, val)
+			case ssa.Value(pj):
+				s.b = append(s.b, val)
+			}
+		})
+	} else {
+		s.a, s.b = []ssa.Value{pi}, []ssa.Value{pj}
+	}
+	// delegation: the whole body is `return helper(<a>, <b>)`
+	for depth := 0; depth < 2; depth++ {
+		if len(s.cmp.Blocks) != 1 {
+			break
+		}
+		var ret *ssa.Return
+		for _, in := range s.cmp.Blocks[0].Instrs {
+			if r, ok := in.(*ssa.Return); ok {
+				ret = r
+			}
+		}
+		if ret == nil || len(ret.Results) != 1 {
+			break
+		}
+		call, ok := ret.Results[0].(*ssa.Call)
+		if !ok {
+			break
+		}
+		g := call.Call.StaticCallee()
+		if g == nil || g.Pkg == nil || g.Pkg.Pkg.Path() != twigPath || len(g.Blocks) == 0 || len(call.Call.Args) != 2 || len(g.Params) != 2 {
+			break
+		}
+		isIn := func(v ssa.Value, set []ssa.Value) bool {
+			for _, x := range set {
+				if x == v {
+					return true
+				}
+			}
+			return false
+		}
+		if !(isIn(call.Call.Args[0], s.a) && isIn(call.Call.Args[1], s.b)) {
+			break
+		}
+		s.cmp = g
+		s.a, s.b = []ssa.Value{g.Params[0]}, []ssa.Value{g.Params[1]}
+	}
+	return s, true
 }
